@@ -59,6 +59,10 @@ func dumpValue(path string, v reflect.Value, out flat) {
 		}
 		sort.Slice(ks, func(i, j int) bool { return ks[i].k < ks[j].k })
 		for _, e := range ks {
+			if e.v.Kind() == reflect.Struct && e.v.NumField() == 0 {
+				out[path+"["+e.k+"]"] = "present" // a set: the key is the content
+				continue
+			}
 			dumpValue(path+"["+e.k+"]", e.v, out)
 		}
 	case reflect.Slice, reflect.Array:
